@@ -481,7 +481,7 @@ func TypedValueToString(tv *sdcpb.TypedValue) string {
 	case *sdcpb.TypedValue_FloatVal:
 		return strconv.FormatFloat(float64(tv.GetFloatVal()), byte('e'), -1, 64)
 	case *sdcpb.TypedValue_IntVal:
-		return strconv.Itoa(int(tv.GetIntVal()))
+		return strconv.FormatInt(tv.GetIntVal(), 10)
 	case *sdcpb.TypedValue_JsonIetfVal:
 		return string(tv.GetJsonIetfVal())
 	case *sdcpb.TypedValue_JsonVal:
@@ -497,7 +497,7 @@ func TypedValueToString(tv *sdcpb.TypedValue) string {
 	case *sdcpb.TypedValue_StringVal:
 		return tv.GetStringVal()
 	case *sdcpb.TypedValue_UintVal:
-		return strconv.Itoa(int(tv.GetUintVal()))
+		return strconv.FormatUint(tv.GetUintVal(), 10)
 	case *sdcpb.TypedValue_IdentityrefVal:
 		return tv.GetIdentityrefVal().Value
 	}
